@@ -126,6 +126,82 @@ def nodelist_shapes(rng, res):
     return case
 
 
+def nodelist_threads(rng, res):
+    """two or three application threads place and release ranks on the same
+    NodeList (Pilot.nodelist is shared by the threads of an application): every
+    granted slot still has the requested shape"""
+    import time
+    import random
+    import threading as mt
+    from ..core import YieldLock
+
+    seed = rng.randint(0, 2 ** 30)
+    cpn  = rng.choice([2, 3, 4])
+    gpn  = rng.choice([0, 1, 2])
+    nn   = rng.choice([1, 1, 2])
+    nodes = [rp.Node({'index': i, 'name': 'n%d' % i,
+                      'cores': [rpc.FREE] * cpn, 'gpus': [rpc.FREE] * gpn,
+                      'lfs': 0, 'mem': 0}) for i in range(nn)]
+    nl = rp.NodeList(nodes=nodes)
+    nl.verify()
+    for n in nl.nodes:
+        n.__lock__ = YieldLock(n.__lock__, seed, 'node.%d' % n.index,
+                               sleeps=[0, 0, 0.0002, 0.0005, 0.001])
+    case  = {'seed': seed, 'cpn': cpn, 'gpn': gpn, 'nodes': nn}
+    bad, errs = list(), list()
+
+    def app(k):
+        r    = random.Random(seed * 7 + k)
+        live = list()
+        try:
+            for _ in range(r.randint(6, 16)):
+                if live and r.random() < 0.45:
+                    nl.release_slots(live.pop(r.randrange(len(live))))
+                    continue
+                rr = rp.RankRequirements(
+                        n_cores=r.choice([1, 2, cpn]),
+                        n_gpus=r.choice([0, 0, 1]) if gpn else 0)
+                try:
+                    slots = nl.find_slots(rr, n_slots=1)
+                except (ValueError, RuntimeError):
+                    continue
+                if not slots:
+                    continue
+                live.append(slots)
+                for sl in slots:
+                    if len({c.index for c in sl.cores}) != rr.n_cores or \
+                       len({g.index for g in sl.gpus})  != rr.n_gpus:
+                        bad.append('thread %d: %s for %s' % (k, sl.as_dict(),
+                                                             rr))
+                time.sleep(0)
+            for slots in live:
+                nl.release_slots(slots)
+        except Exception as e:
+            errs.append('thread %d: %r' % (k, e))
+
+    ts = [mt.Thread(target=app, args=[k], daemon=True, name='app-%d' % k)
+          for k in range(rng.choice([2, 2, 3]))]
+    for t in ts: t.start()
+    for t in ts: t.join(timeout=30)
+    res.count('nodelist_thread_histories')
+    if any(t.is_alive() for t in ts):
+        res.inconc('nodelist threads still busy after 30 s')
+        return case
+    for e in errs:
+        res.violation('nodelist-threads/raised', e, case)
+        return case
+    for b in bad[:1]:
+        res.violation('nodelist-slot-shape/threads', b, case)
+    for n in nl.nodes:
+        occ = [round(c.occupation, 9) for c in n.cores] + \
+              [round(g.occupation, 9) for g in n.gpus]
+        if any(o != 0 for o in occ):
+            res.violation('nodelist-threads/not-free-after-all-releases',
+                          'node %d: %s' % (n.index, occ), case)
+            break
+    return case
+
+
 def _nontrivial(sim):
     return len(sim.granted) >= 2
 
@@ -135,6 +211,11 @@ def run(ctx):
     run_histories(ctx, res, ctx.n(2400, 60000), lambda r: [Shape(r)],
                   gen_kwargs={'allow_cancel': True}, nontrivial=_nontrivial,
                   salt='c02')
+    rng = ctx.rng('nodelist-threads')
+    for i in range(ctx.n(640, 16000)):
+        nodelist_threads(rng, res)
+        if len(res.violations) > 10:
+            break
     rng = ctx.rng('nodelist')
     for i in range(ctx.n(1600, 40000)):
         case = nodelist_shapes(rng, res)
